@@ -1358,6 +1358,17 @@ func libModel(sc *ssa.Function, c *ssa.CallCommon, args []aval, site *ssa.Call) 
 			return cStr(strings.TrimSuffix(a, b)), true
 		}
 		return top, true
+	case "(*regexp.Regexp).ReplaceAllString":
+		if len(args) == 3 && args[1].k == kConst && args[2].k == kConst && args[1].c.Kind() == constant.String && args[2].c.Kind() == constant.String {
+			for _, n := range args[0].notes {
+				if strings.HasPrefix(n, "regexp:") {
+					if re, err := regexp.Compile(strings.TrimPrefix(n, "regexp:")); err == nil {
+						return cStr(re.ReplaceAllString(constant.StringVal(args[1].c), constant.StringVal(args[2].c))), true
+					}
+				}
+			}
+		}
+		return aval{}, false
 	case "(*regexp.Regexp).MatchString", "(*regexp.Regexp).FindStringSubmatchIndex", "(*regexp.Regexp).FindStringSubmatch", "(*regexp.Regexp).FindString":
 		pat := ""
 		if len(args) == 2 {
